@@ -78,6 +78,49 @@ def check_tie_anchor(case, ctx):
     ctx.nontrivial_if(typed)
 
 
+def check_omitted(case, ctx):
+    """omitting ranks == ranks=[0..n-1] == scores=[n-1..0] (and float / relabelled versions), whatever the options are"""
+    cfg, teams, opts = case["cfg"], case["teams"], case["opts"]
+    n = len(teams)
+    base = rate_values(cfg, teams, dict(opts), ctx)
+    variants = {
+        "ranks=range(n)": {"ranks": list(range(n))},
+        "ranks=float range": {"ranks": [float(i) for i in range(n)]},
+        "ranks shifted": {"ranks": [i - 2 for i in range(n)]},
+        "scores descending": {"scores": [n - 1 - i for i in range(n)]},
+        "scores descending float": {"scores": [(n - i) * 0.5 for i in range(n)]},
+    }
+    for name, frag in variants.items():
+        res = rate_values(cfg, teams, dict(opts, **frag), ctx)
+        if res != base:
+            raise Violation("omitted-vs-" + name.split("=")[0].split()[0], f"{cfg['kind']} opts={opts}: omitting ranks differs from {name} ({frag}): {_first_diff(res, base)}")
+    binding = bool(opts.get("limit_sigma") or (opts.get("limit_sigma") is None and cfg["limit_sigma"])) and \
+        any(r[1] == p[1] for tr, t in zip(base, teams) for r, p in zip(tr, t))
+    ctx.label("kind:" + cfg["kind"], "limit-binding" if binding else "limit-not-binding")
+    ctx.nontrivial_if(binding or opts.get("tau") is not None)
+
+
+@st.composite
+def omitted_cases(draw):
+    cfg = draw(gen.configs())
+    beta = cfg["beta"]
+    sizes = draw(gen.shapes(max_teams=6, max_size=4))
+    teams, regime, _ = draw(gen.team_values(cfg, sizes, regimes=["generic", "targeted", "identical", "team_corner"]))
+    if draw(st.booleans()):
+        # settled players: small sigma, so that the tau inflation outweighs the information of the game and limit_sigma binds
+        for t in teams:
+            for p in t:
+                p[1] = draw(st.sampled_from([1e-3, 0.01, 0.1])) * beta
+    opts = {}
+    lim = draw(st.sampled_from([None, True, True, False]))
+    if lim is not None:
+        opts["limit_sigma"] = lim
+    tau = draw(st.sampled_from([None, 0.0, beta / 50.0, 2.0 * beta]))
+    if tau is not None:
+        opts["tau"] = tau
+    return {"cfg": cfg, "teams": teams, "opts": opts, "meta": {"regime": regime}}
+
+
 @st.composite
 def enc_cases(draw):
     tiny = draw(st.integers(0, 3)) == 0
@@ -88,7 +131,7 @@ def enc_cases(draw):
         kinds = ["small_ints", "small_ints", "scores_small", "scores_small", "mixed"]
     else:
         g = draw(gen.games(options=True, enc_kinds=["int"]))
-        kinds = ["int_relabel", "float", "mixed", "bool", "huge", "zero_neg", "small_ints", "close", "close", "scores", "scores_small", "scores_float", "omitted"]
+        kinds = ["int_relabel", "float", "mixed", "bool", "huge", "zero_neg", "small_ints", "close", "close", "scores", "scores_small", "scores_float", "scores_huge", "omitted"]
     classes = g["classes"]
     encs = []
     k = draw(st.integers(3, 5))
@@ -123,6 +166,9 @@ PROPERTY = Property(
                rule="one game x one weak order x 3-5 drawn encodings (int relabelling, float, mixed int/float/bool/-0.0, bool, huge, zero/negative, scores, "
                     "float scores, omitted) each compared bit for bit with ranks = dense classes; non-trivial = an encoding with a float / bool / |v| > 2^53 "
                     "value on an order that has a tie or is not the identity"),
+        Clause(name="omitted-equals-identity", strategy=omitted_cases(), check=check_omitted, quick=3000, thorough=50000,
+               rule="ranks omitted vs ranks=[0..n-1] (int, float, shifted) vs scores=[n-1..0] under per-call tau / limit_sigma, half of the cases with settled "
+                    "(small-sigma) players so that the clamp binds; non-trivial = the clamp binds or a per-call tau is given"),
         Clause(name="tie-anchor", strategy=anchor_cases(), check=check_tie_anchor, quick=3000, thorough=50000,
                rule="PL / full pairing: identical teams whose rank values compare equal end with equal posteriors (numerical budget); "
                     "non-trivial = the equal values have different Python types (1 vs 1.0, 0 vs -0.0 vs False)"),
